@@ -105,6 +105,21 @@ func (s *Session) Send(line string, timeout time.Duration) bool {
 	}
 }
 
+// SendNoRead hands a command to the loop WITHOUT reading the driver's output meanwhile (a GUI that writes
+// but does not read). Returns false if the driver did not take it in time.
+func (s *Session) SendNoRead(line string, timeout time.Duration) bool {
+	t := time.NewTimer(timeout)
+	defer t.Stop()
+	select {
+	case s.in <- line:
+		return true
+	case <-s.D.Closed():
+		return false
+	case <-t.C:
+		return false
+	}
+}
+
 // Until collects output lines until one has the given prefix. Returns the lines seen
 // (including the match) and whether the match arrived in time.
 func (s *Session) Until(prefix string, timeout time.Duration) ([]string, bool) {
